@@ -541,7 +541,8 @@ def rule_generics_preserve(ctx):
                     ctx.report(f"genpreserve:params-loop-exit:{g.name}", ctx.where(f, exits[0]), f"`{g.name}` leaves its loop over the generic parameters early (`{A.render(exits[0])[:40]}`): the parameters after that point get no bound (`struct S<const N: usize, T>(T)`: `T` comes after a const parameter)", {})
     wc = fam.get("add_extra_where_clauses")
     ctx.instance("genpreserve:old-predicates")
-    if wc is None or A.wsearch(A.fn_text(wc[0]), "if let Some(old_where)=new_generics.where_clause{type_where_clauses.predicates.extend(old_where.predicates)}") is None:
+    # `if let Some(old) = <copy>.where_clause[.take()] { <new clause>.predicates.extend(old.predicates) }`, names free
+    if wc is None or re.search(r"if let Some\(\$\)=\$\.where_clause(?:\.take\(\)|\.clone\(\))?\{\$\.predicates\.extend\(\$\.predicates\);?\}", A.alpha(A.fn_text(wc[0]), numbered=False)) is None:
         ctx.report("genpreserve:old-predicates", ctx.where(f, wc[0].node) if wc else "impl/src/utils.rs", "`add_extra_where_clauses` no longer appends the item's existing where-predicates to the added ones", {})
 
 
@@ -662,3 +663,46 @@ def rule_user_bounds_flow(ctx):
                 if not ok:
                     ctx.report(f"user-bounds:{key}", ctx.where(f, fn.node), f"`{fn.qual}` holds the parsed attributes `{root}` but adds their `bound(...)` predicates to the impl {'only under `' + why + '`' if why not in ('never',) and not why.startswith('handed') else why if why.startswith('handed') else 'on no path'}: for the other inputs a `bound(..)` the derive accepted is silently dropped and the impl is less constrained than the user asked", {})
     ctx.floor("attribute values in bound producers", n, 7)
+
+
+def _state_generics_reads(ctx, files, prefix, typed=True):
+    out = []
+    for rel, f in sorted(files.items()):
+        if prefix and (not rel.startswith(prefix) or rel.endswith("/utils.rs")):
+            continue
+        for fn in A.functions(f):
+            if fn.block is None:
+                continue
+            for fe, _ in A.find(fn.block, "Expr::Field"):
+                if A.kind(fe["member"]) != "Member::Named" or fe["member"]["0"]["sym"] != "generics":
+                    continue
+                base = A.peel(fe["base"])
+                is_state = A.kind(base) == "Expr::Path" and A.path_str(base) == "state"
+                if typed and not is_state:
+                    try:
+                        from . import idx as IDX
+
+                        is_state = IDX.expr_struct(ctx, fn, base) == "State"
+                    except Exception:
+                        is_state = False
+                if is_state:
+                    out.append((f, fn, fe))
+    return out
+
+
+def rule_generics_source(ctx):
+    """GEN-SOURCE: the derives take the item's generics from `input.generics` (or from the prepared triples of MultiFieldData / SingleFieldData); none of them reads `State::generics` directly. That copy carries the bound `T: <trait path>` that `State::new` adds for the traits *without* type arguments; reused for a trait that has them (`TryInto<T>`, `AsRef<T>`, `Index<I>` ..) it puts `T: derive_more::with_trait::TryInto` (E0107) into the impl header of every generic item. Closed set (who may read), expected empty outside utils.rs; positive control rules/positive/gensource.rs."""
+    import os
+
+    got = _state_generics_reads(ctx, ctx.files, "impl/src/")
+    for f, fn, fe in got:
+        key = f"{f.rel}::{fn.qual}"
+        ctx.instance(f"gen-source:{key}")
+        ctx.report(f"gen-source:{key}", ctx.where(f, fe), f"`{fn.qual}` reads `{A.render(fe)}`: `State::generics` is the item's generics *plus* `T: <trait path>` for every type parameter - right only for the argument-less traits `State` was built for; in an impl of a trait with type arguments the bound is malformed (`T: TryInto`, E0107) or over-constrains the impl. Use `input.generics`", {})
+    ctx.cur.instances += 1
+    ctx.note(f"{len(got)} direct reads of State::generics outside utils.rs")
+    pos = os.path.join(os.path.dirname(os.path.dirname(os.path.dirname(os.path.dirname(os.path.abspath(__file__))))), "rules", "positive", "gensource.rs")
+    pc = _state_generics_reads(ctx, A.load_files([pos]), None, typed=False)
+    ctx.instance("gen-source:positive-control")
+    if len(pc) != 1:
+        ctx.report("gen-source:positive-control", "rules/positive/gensource.rs", f"the positive control yields {len(pc)} sites instead of 1", {})
